@@ -105,3 +105,223 @@ Definition parse_literal (l : list Z) : option (list Z * list Z) :=
   | 34 :: r => parse_body r
   | _ => None
   end.
+
+(* ------------------------------------------------------------------ values *)
+
+(* what a text value denotes.  Text and Data written as a string literal are both [TvStr]
+   (the two are not distinguished by the notation); [TvData] is the 0x-literal form.
+   Floats and the encoder's markers for capabilities / AnyPointer are opaque tokens. *)
+Inductive tval : Type :=
+| TvVoid
+| TvBool (b : bool)
+| TvInt (z : Z)
+| TvFloat (tok : list Z)
+| TvStr (s : list Z)
+| TvData (s : list Z)
+| TvIdent (name : list Z)
+| TvMarker (m : list Z)
+| TvList (l : tvals)
+| TvStruct (fs : tfields)
+with tvals : Type :=
+| TNil
+| TCons (v : tval) (r : tvals)
+with tfields : Type :=
+| FNil
+| FCons (name : list Z) (v : tval) (r : tfields).
+
+Definition is_blank (c : Z) : bool := (c =? 32) || (c =? 9) || (c =? 10) || (c =? 13).
+Definition is_digit (c : Z) : bool := (48 <=? c) && (c <=? 57).
+Definition is_alpha (c : Z) : bool :=
+  ((97 <=? c) && (c <=? 122)) || ((65 <=? c) && (c <=? 90)) || (c =? 95).
+Definition is_idchar (c : Z) : bool := is_alpha c || is_digit c.
+(* characters of a number token: digits, letters (exponent, hex, inf/nan), '.', '+', '-' *)
+Definition is_numchar (c : Z) : bool := is_idchar c || (c =? 46) || (c =? 43) || (c =? 45).
+
+Fixpoint skip_ws (l : list Z) : list Z :=
+  match l with
+  | c :: r => if is_blank c then skip_ws r else l
+  | [] => []
+  end.
+
+(* longest prefix whose bytes satisfy p, and the rest *)
+Fixpoint span (p : Z -> bool) (l : list Z) : list Z * list Z :=
+  match l with
+  | c :: r => if p c then let (a, b) := span p r in (c :: a, b) else ([], l)
+  | [] => ([], [])
+  end.
+
+(* decimal digits -> Decimal.uint (most significant first) *)
+Fixpoint uint_of_digits (l : list Z) : option uint :=
+  match l with
+  | [] => Some Nil
+  | c :: r =>
+    match uint_of_digits r with
+    | None => None
+    | Some u =>
+      if c =? 48 then Some (D0 u) else if c =? 49 then Some (D1 u) else if c =? 50 then Some (D2 u)
+      else if c =? 51 then Some (D3 u) else if c =? 52 then Some (D4 u) else if c =? 53 then Some (D5 u)
+      else if c =? 54 then Some (D6 u) else if c =? 55 then Some (D7 u) else if c =? 56 then Some (D8 u)
+      else if c =? 57 then Some (D9 u) else None
+    end
+  end.
+
+(* a number token: an integer when it is  [-] digit+ , otherwise an opaque float token *)
+Definition number_of_token (tok : list Z) : tval :=
+  match tok with
+  | 45 :: (_ :: _) as ds =>
+    match uint_of_digits ds with
+    | Some u => TvInt (- Z.of_uint u)
+    | None => TvFloat tok
+    end
+  | _ :: _ =>
+    match uint_of_digits tok with
+    | Some u => TvInt (Z.of_uint u)
+    | None => TvFloat tok
+    end
+  | [] => TvFloat tok
+  end.
+
+Definition kw_true : list Z := [116; 114; 117; 101].
+Definition kw_false : list Z := [102; 97; 108; 115; 101].
+Definition kw_void : list Z := [118; 111; 105; 100].
+
+Definition bytes_eqb (a b : list Z) : bool :=
+  (length a =? length b)%nat && forallb (fun p => fst p =? snd p) (combine a b).
+
+Definition ident_value (name : list Z) : tval :=
+  if bytes_eqb name kw_true then TvBool true
+  else if bytes_eqb name kw_false then TvBool false
+  else if bytes_eqb name kw_void then TvVoid
+  else TvIdent name.
+
+(* 0x-literal body: pairs of hex digits, blanks allowed between pairs, up to the closing quote *)
+Fixpoint parse_hexdata (l : list Z) : option (list Z * list Z) :=
+  match l with
+  | [] => None
+  | c :: r =>
+    if c =? 34 then Some ([], r)
+    else if is_blank c then parse_hexdata r
+    else match r with
+         | d :: r2 =>
+           match hex_val c, hex_val d with
+           | Some a, Some b => cons_res (16 * a + b) (parse_hexdata r2)
+           | _, _ => None
+           end
+         | [] => None
+         end
+  end.
+
+(* '<' ... '>' : the bytes up to and including the first '>' *)
+Fixpoint take_marker (l : list Z) : option (list Z * list Z) :=
+  match l with
+  | [] => None
+  | c :: r => if c =? 62 then Some ([c], r) else cons_res c (take_marker r)
+  end.
+
+(* The reader.  Every call consumes fuel; [parse_text] supplies more than any input needs
+   (each call consumes at least one byte before calling again).  None = not a value. *)
+Fixpoint parse_value (fuel : nat) (l : list Z) : option (tval * list Z) :=
+  match fuel with
+  | O => None
+  | S f =>
+    match skip_ws l with
+    | [] => None
+    | c :: r =>
+      if c =? 40 then                                   (* ( *)
+        match skip_ws r with
+        | 41 :: r' => Some (TvStruct FNil, r')
+        | _ => match parse_fields f r with
+               | Some (fs, r') => Some (TvStruct fs, r')
+               | None => None
+               end
+        end
+      else if c =? 91 then                              (* [ *)
+        match skip_ws r with
+        | 93 :: r' => Some (TvList TNil, r')
+        | _ => match parse_elems f r with
+               | Some (vs, r') => Some (TvList vs, r')
+               | None => None
+               end
+        end
+      else if c =? 34 then                              (* string literal *)
+        match parse_body r with
+        | Some (s, r') => Some (TvStr s, r')
+        | None => None
+        end
+      else if c =? 60 then                              (* < marker > *)
+        match take_marker r with
+        | Some (m, r') => Some (TvMarker (60 :: m), r')
+        | None => None
+        end
+      else if (c =? 48) && (match r with 120 :: 34 :: _ => true | _ => false end) then
+        match r with
+        | _ :: _ :: r1 =>
+          match parse_hexdata r1 with
+          | Some (s, r') => Some (TvData s, r')
+          | None => None
+          end
+        | _ => None
+        end
+      else if is_digit c || (c =? 45) || (c =? 43) then
+        let (tok, r') := span is_numchar (c :: r) in Some (number_of_token tok, r')
+      else if is_alpha c then
+        let (name, r') := span is_idchar (c :: r) in Some (ident_value name, r')
+      else None
+    end
+  end
+with parse_elems (fuel : nat) (l : list Z) : option (tvals * list Z) :=
+  match fuel with
+  | O => None
+  | S f =>
+    match parse_value f l with
+    | None => None
+    | Some (v, r1) =>
+      match skip_ws r1 with
+      | c :: r2 =>
+        if c =? 93 then Some (TCons v TNil, r2)
+        else if c =? 44 then
+          match parse_elems f r2 with
+          | Some (vs, r3) => Some (TCons v vs, r3)
+          | None => None
+          end
+        else None
+      | [] => None
+      end
+    end
+  end
+with parse_fields (fuel : nat) (l : list Z) : option (tfields * list Z) :=
+  match fuel with
+  | O => None
+  | S f =>
+    let (name, r0) := span is_idchar (skip_ws l) in
+    match name with
+    | [] => None
+    | _ :: _ =>
+      match skip_ws r0 with
+      | 61 :: r1 =>
+        match parse_value f r1 with
+        | None => None
+        | Some (v, r2) =>
+          match skip_ws r2 with
+          | c :: r3 =>
+            if c =? 41 then Some (FCons name v FNil, r3)
+            else if c =? 44 then
+              match parse_fields f r3 with
+              | Some (fs, r4) => Some (FCons name v fs, r4)
+              | None => None
+              end
+            else None
+          | [] => None
+          end
+        end
+      | _ => None
+      end
+    end
+  end.
+
+(* a complete text: one value, then only blanks *)
+Definition parse_text (l : list Z) : option tval :=
+  match parse_value (S (length l)) l with
+  | Some (v, rest) => match skip_ws rest with [] => Some v | _ => None end
+  | None => None
+  end.
